@@ -11,6 +11,7 @@ import (
 	"go/constant"
 	"go/token"
 	"go/types"
+	"os"
 	"sort"
 	"strconv"
 	"strings"
@@ -102,17 +103,17 @@ type Instance struct {
 }
 
 type TermBuilder struct {
-	w       *World
-	root    *Ctx
-	nctx    int
-	terms   map[string]*Term
-	insts   []*Instance // index = id (0 unused)
-	instKey map[string]int
-	memo    map[memoKey]*Term
-	alts    map[int][]*Term // alternatives of phi/ret instances
-	globals map[*ssa.Global]*globalInit
-	consts  map[int]constant.Value // root parameter index -> assumed constant
-	dynamic []string               // notes: calls through function values etc.
+	w        *World
+	root     *Ctx
+	nctx     int
+	terms    map[string]*Term
+	insts    []*Instance // index = id (0 unused)
+	instKey  map[string]int
+	memo     map[memoKey]*Term
+	alts     map[int][]*Term // alternatives of phi/ret instances
+	globals  map[*ssa.Global]*globalInit
+	consts   map[int]constant.Value // root parameter index -> assumed constant
+	dynamic  []string               // notes: calls through function values etc.
 	initCtxs map[*ssa.Function]*Ctx
 	live     map[*Ctx]map[*ssa.BasicBlock]bool
 }
@@ -123,9 +124,10 @@ type memoKey struct {
 }
 
 type globalInit struct {
-	fn    *ssa.Function
-	val   ssa.Value
-	multi bool
+	fn      *ssa.Function
+	val     ssa.Value
+	multi   bool
+	scanned map[*ssa.Function]bool
 }
 
 func newTermBuilder(w *World, rootFn *ssa.Function) *TermBuilder {
@@ -945,6 +947,9 @@ func (tb *TermBuilder) builtin(ctx *Ctx, c *ssa.Call, b *ssa.Builtin) *Term {
 	switch b.Name() {
 	case "len":
 		x := tb.Term(ctx, args[0])
+		if x.IsNil() {
+			return tb.constInt(0)
+		}
 		if s, ok := x.BytesConst(); ok {
 			return tb.constInt(int64(len(s)))
 		}
@@ -1240,6 +1245,9 @@ func (tb *TermBuilder) globalVal(g *ssa.Global) *Term {
 		}
 	}
 	if gi.val == nil || gi.multi {
+		if os.Getenv("DBGGLOBAL") != "" {
+			fmt.Fprintln(os.Stderr, "global unresolved", g.Name(), gi.val, gi.multi)
+		}
 		return tb.mk("global", g.Pkg.Pkg.Name()+"."+g.Name(), 0)
 	}
 	// evaluate in a pseudo root context for the init function
@@ -1248,6 +1256,13 @@ func (tb *TermBuilder) globalVal(g *ssa.Global) *Term {
 }
 
 func (tb *TermBuilder) scanGlobalStores(f *ssa.Function, g *ssa.Global, gi *globalInit) {
+	if gi.scanned == nil {
+		gi.scanned = map[*ssa.Function]bool{}
+	}
+	if gi.scanned[f] {
+		return
+	}
+	gi.scanned[f] = true
 	for _, b := range f.Blocks {
 		for _, ins := range b.Instrs {
 			if st, ok := ins.(*ssa.Store); ok && st.Addr == g {
